@@ -3,11 +3,12 @@
    instance of the ticket pipeline NV.Io.Sched, next to the single-threaded bgzf::io::Reader.
 
    Producer  = spawn_reader: takes a recycled buffer, read_frame_into, spawns the inflate task,
-               sends the ticket.  A frame-level error (short frame, BSIZE < 25) ends the thread with
-               Err, which only finish() reports (pause() discards it).
+               sends the ticket.  A frame-level error (short frame, BSIZE < 25) is sent as an
+               already answered ticket (buffer, Err) -- no pool task -- and ends the thread
+               (behaviour after the repair of `mtr-frame-error-discarded-by-pause`).
    Pool task = parse_block: header check, inflate, CRC check -> Ok(block) | Err.
    Consumer  = the application thread in read_block(): takes tickets in order; an Err ticket is
-               returned from read (the caller stops); Ok: block.position := position,
+               returned from read after its buffer has been recycled (the caller stops); Ok: block.position := position,
                position += block.size, the block becomes current; empty blocks are skipped.
    Buffers   = worker_count + 2 recycled buffers bound the number of outstanding tickets.
 
@@ -36,12 +37,15 @@ Definition app_step (a : app) (fr : frame) : app :=
   else mk_app (apos a + fsize fr)%N (apos a) (fsize fr)
               (if (flen fr =? 0)%N then got a else got a ++ [(fidx fr, flen fr)]) false.
 
-(* the frames the reader thread submits: those before the first frame-level error *)
+(* the tickets the reader thread sends: one per frame up to and including the first frame-level
+   error, whose ticket carries the error *)
 Fixpoint submitted (frames : list frame) : list frame :=
   match frames with
   | [] => []
-  | fr :: rest => match fstat fr with BadFrame => [] | _ => fr :: submitted rest end
+  | fr :: rest => match fstat fr with BadFrame => [fr] | _ => fr :: submitted rest end
   end.
+(* a frame-level error ticket is answered by the reader thread itself *)
+Definition r_ready (fr : frame) : bool := match fstat fr with BadFrame => true | _ => false end.
 Definition frame_error (frames : list frame) : bool :=
   existsb (fun fr => match fstat fr with BadFrame => true | _ => false end) frames.
 
@@ -64,19 +68,19 @@ Section Reader.
   Definition r_can_submit (n : nat) (h : bool) : bool := n + (if h then 1 else 0) <? P + 2.
 
   Definition r_run (frames : list frame) (sched : list act) : st frame app :=
-    run (fun fr => fr) app_step rerr r_can_submit P app0 (submitted frames) sched.
+    run (fun fr => fr) r_ready app_step rerr r_can_submit P app0 (submitted frames) sched.
   Definition r_final (s : st frame app) : bool := final rerr s.
 End Reader.
 
 (* observation: delivered blocks, virtual position at the end (coffset, uoffset = 0 because the
-   current block is exhausted), read error?, and whether finish() must report a frame-level error
-   (only observable when no read error occurred) *)
+   current block is exhausted), read error?, finish() error? (never: the reader thread's result
+   carries no error any more) *)
 Definition robs (frames : list frame) (a : app) : list (N * N) * N * bool * bool :=
-  (got a, (bpos a + bsize a)%N, rerr a, negb (rerr a) && frame_error frames).
+  (got a, (bpos a + bsize a)%N, rerr a, false).
 
 Definition c03_reader_model (P : nat) (frames : list frame) (rel : list nat)
   : option (list (N * N) * N * bool * bool) :=
   let xs := submitted frames in
-  let '(s, _) := drive (fun fr => fr) app_step rerr (r_can_submit P) P
+  let '(s, _) := drive (fun fr => fr) r_ready app_step rerr (r_can_submit P) P
                        (5 * length xs + 1) (init app0 xs) rel in
   if final rerr s then Some (robs frames (cs s)) else None.
